@@ -698,6 +698,57 @@ def gen_lzma2(rng, big=False, stats=None):
                 plain=plain, expect=expect, variant="lzma2:" + variant, valid_len=len(out))
 
 
+def gen_lzma2_limits(rng, stats=None):
+    """LZMA2 streams at the chunk size limits: an LZMA chunk of exactly LZMA2_UNCOMPRESSED_MAX (2^21) bytes, LZMA chunks whose
+    compressed size is at or just below LZMA2_CHUNK_MAX (2^16), uncompressed chunks of exactly 2^16 bytes, and headers
+    that claim one more than the limits allow is impossible by construction (the fields cannot express it)."""
+    stats = stats if stats is not None else {}
+    ds = rng.choice((4096, 65536, 1 << 20, 1 << 22))
+    lc, lp, pb = pick_props(rng)
+    w = LzmaWriter(lc, lp, pb, ds, b"")
+    out = bytearray()
+    kind = rng.choice(("usize-max", "csize-max", "uncompressed-max", "usize-max"))
+    stats["lzma2-limits:" + kind] = stats.get("lzma2-limits:" + kind, 0) + 1
+    if kind == "uncompressed-max":
+        for k in range(rng.choice((1, 2, 3))):
+            data = bytes(rng.getrandbits(8) for _ in range(1 << 16))
+            out.append(1 if k == 0 else 2)
+            out += ((1 << 16) - 1).to_bytes(2, "big") + data
+            if k == 0:
+                w.reset_dict()
+            w.raw_bytes(data)
+    elif kind == "usize-max":
+        w.new_rc()
+        w.literal(rng.getrandbits(8))
+        random_symbols(rng, w, (1 << 21) - 1, stats, lit_bias=0.02, long_bias=True)
+        w.rc.flush()
+        body = bytes(w.rc.out)
+        assert len(body) <= 1 << 16
+        out += lzma2_chunk_header(0xE0, 1 << 21, len(body), props_byte(lc, lp, pb)) + body
+    else:
+        # compressed size as close to 2^16 as the symbol granularity allows, with several attempts at the exact value
+        w.new_rc()
+        produced = 0
+        while w.rc.pending_size() < (1 << 16) - 40:
+            w.literal(rng.getrandbits(8))
+            produced += 1
+        while w.rc.pending_size() < (1 << 16):
+            w.literal(rng.getrandbits(8))
+            produced += 1
+            if w.rc.pending_size() >= (1 << 16) - rng.choice((0, 0, 1, 2)):
+                break
+        w.rc.flush()
+        body = bytes(w.rc.out)
+        if len(body) > 1 << 16:
+            return gen_lzma2_limits(rng, stats)
+        stats["lzma2-limits:csize=%s" % ("65536" if len(body) == 65536 else "<65536")] = stats.get("lzma2-limits:csize=%s" % ("65536" if len(body) == 65536 else "<65536"), 0) + 1
+        out += lzma2_chunk_header(0xE0, produced, len(body), props_byte(lc, lp, pb)) + body
+    out.append(0)
+    plain = bytes(w.plain)
+    return dict(kind=3, lc=0, lp=0, pb=0, dict=ds, extflags=0, extsize=0, preset=b"", stream=bytes(out), plain=plain,
+                expect=("end", plain), variant="lzma2-limits:" + kind, valid_len=len(out))
+
+
 # ------------------------------------------------------------------------------------------------
 # byte-level mutation
 # ------------------------------------------------------------------------------------------------
